@@ -408,6 +408,14 @@ theorem tableInfo_first (l : List Feat) (key : Str) (f : Feat) (hnodup : NoDupFe
     (Or.inl ⟨mem_listSort_of_mem cmpFeatures hf hnodup, Or.inl (by decide)⟩)]
   rfl
 
+/-- "smallest line number" IS "first occurrence in the file": the features the parser collects
+    (the C list, before the defaults with line −1 are added) carry the number of the line they
+    were read from and are ordered newest line first -/
+theorem parser_lines_descending (activeOnly : Bool) (bytes : List Nat) (s' : AState)
+    (h : analyzeLines activeOnly (splitLines (decodeFile bytes).1 []) 1 {} = .done s') :
+    ∃ m, LinesDescending m s'.feats :=
+  analyzeLines_lines activeOnly _ 1 (by decide) {} s' h ⟨List.Pairwise.nil, fun _ h => by cases h⟩
+
 /-- a key that no line declares (and that has no default): NULL -/
 theorem tableInfo_none (l : List Feat) (key : Str) (h : ∀ g ∈ l, cmpCI g.key key ≠ .eq) :
     getTableInfoFeats (listSort cmpFeatures l) key = none := by
